@@ -106,6 +106,13 @@ def run_mutation(case: dict):
     b = (p2.hostname, p2.port, p2.path, p2.query)
     if not (same_host(a[0], b[0]) and a[1:] == b[1:]):
         return viol("meaning-changed", f"{u!r} -> {n!r}: {a} vs {b}")
+    if "exp_path" in case:
+        from urllib.parse import unquote
+
+        for name, got, want in (("path", p.path, case["exp_path"]), ("query", p.query, case["exp_query"])):
+            if unquote(got) != unquote(want):
+                return viol("meaning-changed", f"{u!r}: the {name} {want!r} decodes to {unquote(want)!r}, the parsed {name} {got!r} "
+                            f"(normalised form {n!r}) decodes to {unquote(got)!r}")
     if p2.normalized != n:
         return viol("not-idempotent", f"{u!r} -> {n!r} -> {p2.normalized!r}")
     # the normalised form is what the client writes on the wire: the server-side parser must read the same components
@@ -314,8 +321,31 @@ def strat_grammar():
     return s()
 
 
+NON_NFC = ["cafe\u0301", "\u212bngstro\u0308m", "\u1112\u1161\u11ab", "\u212a", "re\u0301sume\u0301.gmi", "\u00e9t\u00e9", "\u65e5\u672c"]
+
+
+def strat_wire():
+    @st.composite
+    def s(draw):
+        u = draw(strat_grammar())
+        if draw(st.integers(0, 5)) or "len-boundary" in u["labels"] or "host:zone" in u["labels"]:
+            return u
+        # raw (not percent-encoded) non-ASCII text in the path, in composition forms a normaliser would re-spell
+        url = u["url"]
+        head, q = (url.split("?", 1) + [None])[:2] if "?" in url else (url, None)
+        has_path = "/" in head.split("://", 1)[1]
+        extra = draw(st.sampled_from(NON_NFC))
+        path = (u["path"] if has_path else "/")
+        path2 = path + ("" if path.endswith("/") else "/") + extra
+        head2 = (head if has_path else head + "/") + ("" if path.endswith("/") else "/") + extra
+        return {**u, "url": head2 + ("?" + q if q is not None else ""), "path": path2, "labels": u["labels"] + ["path:raw-non-ascii"]}
+
+    return s()
+
+
 MUTS = ["userinfo", "fragment", "tab", "newline", "space", "nonascii", "backslash", "dup-slash-authority",
-        "empty-port", "big-port", "zone", "free-text", "trailing-dot-host", "bracket-junk", "params"]
+        "empty-port", "big-port", "zone", "free-text", "trailing-dot-host", "bracket-junk", "params",
+        "blank-in-path", "blank-in-path", "blank-in-query"]
 
 
 def strat_mutation():
@@ -360,6 +390,21 @@ def strat_mutation():
             u = "gemini://[" + draw(st.text("0123456789abcdef:.%vV", max_size=12)) + "]" + base["path"]
         elif m == "params":
             u = u + draw(st.sampled_from([";a=b", ";", ";;x", "/a;b/c;d"]))
+        elif m in ("blank-in-path", "blank-in-query"):
+            # a raw blank at a segment boundary of the path (or inside the query) of a URL that also carries percent
+            # escapes: whatever the library does with the blank, the component must still decode to the same text
+            head, q = (u.split("?", 1) + [None])[:2] if "?" in u else (u, None)
+            auth_end = head.index("/", len("gemini://")) if "/" in head[len("gemini://"):] else len(head)
+            auth, path = head[:auth_end], head[auth_end:] or "/"
+            blank = draw(st.sampled_from([" ", " ", "  ", " \u3000"]))
+            if m == "blank-in-path":
+                cuts = [i + 1 for i, ch in enumerate(path) if ch == "/"]
+                i = draw(st.sampled_from(cuts))
+                path = path[:i] + draw(st.sampled_from(["my", "a%2Fb", "x%26y", ""])) + blank + "docs" + path[i:]
+            else:
+                q = (q or "") + draw(st.sampled_from(["q=rock", "a%26b", "%3D", ""])) + blank + "roll"
+            u = auth + path + ("?" + q if q is not None else "")
+            return {"url": u, "mut": m, "labels": base["labels"], "exp_path": path, "exp_query": q or ""}
         return {"url": u, "mut": m, "labels": base["labels"]}
 
     return s()
@@ -369,7 +414,7 @@ LANES = [
     Lane(
         name="wire",
         run_case=run_wire,
-        strategy=strat_grammar,
+        strategy=strat_wire,
         budget={"quick": 2400, "thorough": 40000},
         shards={"quick": 16, "thorough": 32},
         nontrivial=_nontrivial,
